@@ -46,48 +46,6 @@ Section Raw.
     intros p H. unfold scr0_clear in H. rewrite H. apply N.eqb_neq. intro E. apply (ok_scr0_nz c Hc). symmetry. exact E.
   Qed.
 
-  (* everything after the Wireguard jump, from a packet that keeps the invariant and has the scratch bit clear *)
-  Lemma raw_rest_ok : forall n disp q,
-    lookup cs CH_FS_IN = Some (failsafe_in TRaw c) ->
-    lookup cs CH_FROM_HEP = Some disp -> hep_disp_ok cs CH_FROM_HEP CH_FS_IN = true ->
-    I_in c e q -> scr0_clear q ->
-    okres (I_in c e) (G cs e (S (S (S (S n))))
-      (vxlan_notrack c ++ raw_mark_wl_rules c ++ [R [MMark false (c_scr0 c) (c_scr0 c)] (AJump CH_RPF_SKIP)] ++ rpf_rules c ++
-       [R [m_clear (c_scr0 c)] (AJump CH_FROM_HEP); R [m_bit_set (c_accept c)] AAccept]) q).
-  Proof.
-    intros n disp p1 Hfs Hd Hshape Hp1 Hs.
-    set (N4 := S (S (S (S n)))).
-    rewrite (G_app_fall _ _ _ _ p1).
-    2:{ apply go_passes. intros r Hr. unfold vxlan_notrack in Hr. destruct (vxlan_here c); [|destruct Hr].
-        destruct Hr as [<-|[]]. right. right; right; right; reflexivity. }
-    rewrite (G_app_fall _ _ _ _ p1).
-    2:{ apply go_passes. intros r Hr. unfold raw_mark_wl_rules in Hr. apply in_map_iff in Hr. destruct Hr as [pfx [<- Hin]].
-        left. apply (I_in_not_wl c e p1 pfx Hp1 Hin). }
-    rewrite (G_app_fall _ _ _ _ p1).
-    2:{ apply go_passes. intros r Hr. destruct Hr as [<-|[]]. left. cbn [R ir_match matches forallb match_one].
-        rewrite xorb_false_l. rewrite (scr0_set_nomatch p1 Hs). reflexivity. }
-    (* RPF rules: the OpenStack DHCP rule may accept; the drop needs the scratch bit *)
-    unfold G. rewrite go_app. fold (G cs e N4).
-    assert (Hrpf : G cs e N4 (rpf_rules c) p1 = RFall p1 \/ G cs e N4 (rpf_rules c) p1 = RDone FAccept p1).
-    { unfold rpf_rules, G. rewrite go_app.
-      assert (Hd2 : go cs e (run N4 cs e) [R [MMark false (c_scr0 c) (c_scr0 c); MOth false O_RPF_FAIL] (c_deny c)] p1 = RFall p1).
-      { cbn [go R ir_match ir_action matches forallb match_one]. rewrite xorb_false_l.
-        rewrite (scr0_set_nomatch p1 Hs). reflexivity. }
-      destruct (c_openstack c && is_v4 c); cbn [opt_rules].
-      - cbn [go R ir_match ir_action].
-        destruct (matches e p1 _); [right; reflexivity|]. left. exact Hd2.
-      - cbn [go]. left. exact Hd2. }
-    destruct Hrpf as [-> | ->]; [|exact Logic.I].
-    (* the untracked host endpoint dispatch, then the accept-bit rule: mark-insensitive from here *)
-    assert (Htail : seg_ok cs e (I_in c e) N4 [R [m_clear (c_scr0 c)] (AJump CH_FROM_HEP); R [m_bit_set (c_accept c)] AAccept]).
-    { apply seg_cons; [|apply seg_cons; [apply seg_rule_allow; left; reflexivity|apply seg_nil]].
-      apply (seg_rule_jump cs e (I_in c e) _ _ CH_FROM_HEP disp Hd).
-      apply (hep_dispatch_ok cs e (I_in c e) (I_in_mark c e Hlocal) CH_FROM_HEP CH_FS_IN _ n disp Hfs); try assumption.
-      - intros q (H1 & H2 & _). apply failsafe_in_accepts; assumption.
-      - apply I_in_ct. }
-    exact (Htail p1 Hp1).
-  Qed.
-
   (* the Wireguard incoming-mark chain only RETURNs or sets the Wireguard mark bit *)
   Lemma wg_chain_result : forall n rets m p,
     (forall r, In r rets -> ir_action r = AReturn) ->
@@ -109,37 +67,148 @@ Section Raw.
     destruct (N.testbit (c_scr0 c) i), (N.testbit m i), (N.testbit old i), (i <? 32); try reflexivity; discriminate.
   Qed.
 
-  (* with the Wireguard jump the Wireguard mark must not overlap the scratch bit (Config.validate) *)
+  (* ---------------------------------------------------------------- generic in the invariant *)
+  Section Gen.
+    Variable I : packet -> Prop.
+    Hypothesis I_mark : forall p m, I p -> I (set_mark p m).
+    Hypothesis I_nowl : forall p pfx, I p -> In pfx (c_prefixes c) -> matches e p [MInIface false pfx true] = false.
+    Definition raw_tail : list irule := [R [m_clear (c_scr0 c)] (AJump CH_FROM_HEP); R [m_bit_set (c_accept c)] AAccept].
+    Variable n : nat.
+    Hypothesis Htail : seg_ok cs e I (S (S (S (S n)))) raw_tail.
+
+    (* everything after the Wireguard jump, from a packet that keeps the invariant and has the scratch bit clear *)
+    Lemma raw_rest_ok : forall q, I q -> scr0_clear q ->
+      okres I (G cs e (S (S (S (S n))))
+        (vxlan_notrack c ++ raw_mark_wl_rules c ++ [R [MMark false (c_scr0 c) (c_scr0 c)] (AJump CH_RPF_SKIP)] ++ rpf_rules c ++ raw_tail) q).
+    Proof.
+      intros p1 Hp1 Hs.
+      set (N4 := S (S (S (S n)))).
+      rewrite (G_app_fall _ _ _ _ p1).
+      2:{ apply go_passes. intros r Hr. unfold vxlan_notrack in Hr. destruct (vxlan_here c); [|destruct Hr].
+          destruct Hr as [<-|[]]. right. right; right; right; reflexivity. }
+      rewrite (G_app_fall _ _ _ _ p1).
+      2:{ apply go_passes. intros r Hr. unfold raw_mark_wl_rules in Hr. apply in_map_iff in Hr. destruct Hr as [pfx [<- Hin]].
+          left. apply (I_nowl p1 pfx Hp1 Hin). }
+      rewrite (G_app_fall _ _ _ _ p1).
+      2:{ apply go_passes. intros r Hr. destruct Hr as [<-|[]]. left. cbn [R ir_match matches forallb match_one].
+          rewrite xorb_false_l. rewrite (scr0_set_nomatch p1 Hs). reflexivity. }
+      unfold G. rewrite go_app. fold (G cs e N4).
+      assert (Hrpf : G cs e N4 (rpf_rules c) p1 = RFall p1 \/ G cs e N4 (rpf_rules c) p1 = RDone FAccept p1).
+      { unfold rpf_rules, G. rewrite go_app.
+        assert (Hd2 : go cs e (run N4 cs e) [R [MMark false (c_scr0 c) (c_scr0 c); MOth false O_RPF_FAIL] (c_deny c)] p1 = RFall p1).
+        { cbn [go R ir_match ir_action matches forallb match_one]. rewrite xorb_false_l.
+          rewrite (scr0_set_nomatch p1 Hs). reflexivity. }
+        destruct (c_openstack c && is_v4 c); cbn [opt_rules].
+        - cbn [go R ir_match ir_action].
+          destruct (matches e p1 _); [right; reflexivity|]. left. exact Hd2.
+        - cbn [go]. left. exact Hd2. }
+      destruct Hrpf as [-> | ->]; [|exact Logic.I].
+      exact (Htail p1 Hp1).
+    Qed.
+
+    (* with the Wireguard jump the Wireguard mark must not overlap the scratch bit (Config.validate) *)
+    Theorem raw_prerouting_ok :
+      (c_wg_raw c = true -> lookup cs CH_WG_MARK = Some (wg_mark_chain c) /\ N.land (c_wg_mark c) (c_scr0 c) = 0) ->
+      seg_ok cs e I (S (S (S (S n)))) (raw_prerouting c).
+    Proof.
+      intros Hwg p Hp.
+      set (p1 := set_mark p (apply_mark (lnot32 (all_bits c)) 0 (pk_mark p))).
+      assert (Hp1 : I p1) by (apply I_mark, Hp).
+      assert (Hs : scr0_clear p1) by (unfold scr0_clear, p1; cbn [pk_mark set_mark]; apply cleared_no_scr0).
+      unfold raw_prerouting.
+      rewrite (G_app_fall _ _ _ _ p1) by reflexivity.
+      destruct (c_wg_raw c) eqn:Ew; cbn [opt_rules].
+      - destruct (Hwg eq_refl) as [Hl Hdisj].
+        set (rets := [R [MInIface false [108; 111] false] AReturn; R [MInIface false (c_wg_if4 c) false] AReturn;
+                      R [MInIface false (c_wg_if6 c) false] AReturn]
+                     ++ map (fun pfx => R [MInIface false pfx true] AReturn) (c_prefixes c)).
+        assert (Hch : wg_mark_chain c = rets ++ [R [] (ASetMark (c_wg_mark c))]).
+        { unfold wg_mark_chain, rets. rewrite app_assoc. reflexivity. }
+        assert (Hrets : forall r, In r rets -> ir_action r = AReturn).
+        { intros r Hr. unfold rets in Hr. apply in_app_or in Hr. destruct Hr as [Hr|Hr].
+          - destruct Hr as [<-|[<-|[<-|[]]]]; reflexivity.
+          - apply in_map_iff in Hr. destruct Hr as [pfx [<- _]]. reflexivity. }
+        unfold G. rewrite go_app. cbn [go R ir_match ir_action matches forallb]. rewrite Hl, run_S, Hch.
+        destruct (wg_chain_result (S (S (S n))) rets (c_wg_mark c) p1 Hrets) as [E|E]; rewrite E.
+        + apply (raw_rest_ok p1 Hp1 Hs).
+        + apply raw_rest_ok.
+          * apply I_mark, Hp1.
+          * unfold scr0_clear. cbn [pk_mark set_mark]. apply set_disjoint_keeps_clear; assumption.
+      - rewrite (G_app_fall _ _ _ _ p1) by reflexivity.
+        apply (raw_rest_ok p1 Hp1 Hs).
+    Qed.
+  End Gen.
+
+  (* inbound failsafe ports *)
   Theorem fs_in_raw_prerouting : forall n disp,
     (c_wg_raw c = true -> lookup cs CH_WG_MARK = Some (wg_mark_chain c) /\ N.land (c_wg_mark c) (c_scr0 c) = 0) ->
     lookup cs CH_FS_IN = Some (failsafe_in TRaw c) ->
     lookup cs CH_FROM_HEP = Some disp -> hep_disp_ok cs CH_FROM_HEP CH_FS_IN = true ->
     seg_ok cs e (I_in c e) (S (S (S (S n)))) (raw_prerouting c).
   Proof.
-    intros n disp Hwg Hfs Hd Hshape p Hp.
-    set (p1 := set_mark p (apply_mark (lnot32 (all_bits c)) 0 (pk_mark p))).
-    assert (Hp1 : I_in c e p1) by (apply (I_in_mark c e Hlocal), Hp).
-    assert (Hs : scr0_clear p1) by (unfold scr0_clear, p1; cbn [pk_mark set_mark]; apply cleared_no_scr0).
-    unfold raw_prerouting.
-    rewrite (G_app_fall _ _ _ _ p1) by reflexivity.
-    destruct (c_wg_raw c) eqn:Ew; cbn [opt_rules].
-    - destruct (Hwg eq_refl) as [Hl Hdisj].
-      set (rets := [R [MInIface false [108; 111] false] AReturn; R [MInIface false (c_wg_if4 c) false] AReturn;
-                    R [MInIface false (c_wg_if6 c) false] AReturn]
-                   ++ map (fun pfx => R [MInIface false pfx true] AReturn) (c_prefixes c)).
-      assert (Hch : wg_mark_chain c = rets ++ [R [] (ASetMark (c_wg_mark c))]).
-      { unfold wg_mark_chain, rets. rewrite app_assoc. reflexivity. }
-      assert (Hrets : forall r, In r rets -> ir_action r = AReturn).
-      { intros r Hr. unfold rets in Hr. apply in_app_or in Hr. destruct Hr as [Hr|Hr].
-        - destruct Hr as [<-|[<-|[<-|[]]]]; reflexivity.
-        - apply in_map_iff in Hr. destruct Hr as [pfx [<- _]]. reflexivity. }
-      unfold G. rewrite go_app. cbn [go R ir_match ir_action matches forallb]. rewrite Hl, run_S, Hch.
-      destruct (wg_chain_result (S (S (S n))) rets (c_wg_mark c) p1 Hrets) as [E|E]; rewrite E.
-      + apply (raw_rest_ok n disp p1 Hfs Hd Hshape Hp1 Hs).
-      + apply (raw_rest_ok n disp _ Hfs Hd Hshape).
-        * apply (I_in_mark c e Hlocal), Hp1.
-        * unfold scr0_clear. cbn [pk_mark set_mark]. apply set_disjoint_keeps_clear; assumption.
-    - rewrite (G_app_fall _ _ _ _ p1) by reflexivity.
-      apply (raw_rest_ok n disp p1 Hfs Hd Hshape Hp1 Hs).
+    intros n disp Hwg Hfs Hd Hshape.
+    apply (raw_prerouting_ok (I_in c e) (I_in_mark c e Hlocal) (I_in_not_wl c e) n); [|exact Hwg].
+    unfold raw_tail.
+    apply seg_cons; [|apply seg_cons; [apply seg_rule_allow; left; reflexivity|apply seg_nil]].
+    apply (seg_rule_jump cs e (I_in c e) _ _ CH_FROM_HEP disp Hd).
+    apply (hep_dispatch_ok cs e (I_in c e) (I_in_mark c e Hlocal) CH_FROM_HEP CH_FS_IN _ n disp Hfs); try assumption.
+    - intros q (H1 & H2 & _). apply failsafe_in_accepts; assumption.
+    - apply I_in_ct.
+  Qed.
+
+  (* responses to outbound failsafe connections, seen in the raw table before conntrack: any conntrack state;
+     the untracked endpoint chains have no conntrack rules (raw_hep_ok: the failsafe jump comes first) *)
+  Definition I_resp_in (p : packet) : Prop :=
+    pk_ver p = c_ver c /\ fs_out_resp_pkt c p = true /\ wl_iface c (pk_in p) = false.
+  Lemma raw_hep_term : forall fs fsb n body (I : packet -> Prop),
+    lookup cs fs = Some fsb -> (forall p, I p -> G cs e n fsb p = RDone FAccept p) ->
+    raw_hep_ok fs body = true -> seg_term cs e I (S n) body.
+  Proof.
+    intros fs fsb n body I Hl Hfs H p Hp. destruct body as [|r rest]; [discriminate|]. cbn [raw_hep_ok] in H.
+    destruct r as [ms a]. unfold is_jump_to in H. cbn [ir_match ir_action] in H.
+    destruct ms; [|discriminate]. destruct a; try discriminate. apply String.eqb_eq in H. subst c0.
+    unfold G. cbn [go ir_match ir_action matches forallb]. rewrite Hl, run_S.
+    change (go cs e (run n cs e) fsb p) with (G cs e n fsb p). rewrite (Hfs p Hp). exact Logic.I.
+  Qed.
+
+  Theorem fs_resp_raw_prerouting : forall n disp,
+    (c_wg_raw c = true -> lookup cs CH_WG_MARK = Some (wg_mark_chain c) /\ N.land (c_wg_mark c) (c_scr0 c) = 0) ->
+    lookup cs CH_FS_IN = Some (failsafe_in TRaw c) ->
+    lookup cs CH_FROM_HEP = Some disp -> disp_ok cs (raw_hep_ok CH_FS_IN) CH_FROM_HEP = true ->
+    seg_ok cs e I_resp_in (S (S (S (S n)))) (raw_prerouting c).
+  Proof.
+    intros n disp Hwg Hfs Hd Hshape.
+    assert (Hm : forall p m, I_resp_in p -> I_resp_in (set_mark p m)) by (intros p m H; exact H).
+    apply (raw_prerouting_ok I_resp_in Hm); [| |exact Hwg].
+    - intros p pfx (_ & _ & H3) Hin. cbn [matches forallb match_one iface_ok]. rewrite xorb_false_l.
+      rewrite (wl_iface_false c _ pfx H3 Hin). reflexivity.
+    - unfold raw_tail.
+      apply seg_cons; [|apply seg_cons; [apply seg_rule_allow; left; reflexivity|apply seg_nil]].
+      apply (seg_rule_jump cs e I_resp_in _ _ CH_FROM_HEP disp Hd).
+      unfold disp_ok in Hshape. rewrite Hd in Hshape.
+      apply (disp_root_ok cs e I_resp_in (raw_hep_ok CH_FS_IN) n disp); [|exact Hshape].
+      intros b Hb. apply (raw_hep_term CH_FS_IN (failsafe_in TRaw c) n b I_resp_in Hfs); [|exact Hb].
+      intros q (H1 & H2 & _). apply failsafe_in_accepts_resp; assumption.
+  Qed.
+
+  (* responses to inbound failsafe connections leaving through raw OUTPUT *)
+  Definition I_resp_out (p : packet) : Prop :=
+    pk_ver p = c_ver c /\ fs_in_resp_pkt c p = true /\ wl_iface c (pk_out p) = false.
+  Theorem fs_resp_raw_output : forall n disp,
+    lookup cs CH_FS_OUT = Some (failsafe_out TRaw c) ->
+    lookup cs CH_TO_HEP = Some disp -> disp_ok cs (raw_hep_ok CH_FS_OUT) CH_TO_HEP = true ->
+    seg_ok cs e I_resp_out (S (S (S (S n)))) (raw_output c).
+  Proof.
+    intros n disp Hfs Hd Hshape. unfold raw_output.
+    assert (Hm : forall p m, I_resp_out p -> I_resp_out (set_mark p m)) by (intros p m H; exact H).
+    apply seg_app.
+    { apply seg_cons; [apply (seg_rule_mark cs e I_resp_out Hm)|]. apply seg_cons; [|apply seg_nil].
+      apply (seg_rule_jump cs e I_resp_out _ [] CH_TO_HEP disp Hd).
+      unfold disp_ok in Hshape. rewrite Hd in Hshape.
+      apply (disp_root_ok cs e I_resp_out (raw_hep_ok CH_FS_OUT) n disp); [|exact Hshape].
+      intros b Hb. apply (raw_hep_term CH_FS_OUT (failsafe_out TRaw c) n b I_resp_out Hfs); [|exact Hb].
+      intros q (H1 & H2 & _). apply failsafe_out_accepts_resp; assumption. }
+    apply seg_app; [apply seg_vxlan_notrack|].
+    apply seg_cons; [apply seg_rule_allow; left; reflexivity|apply seg_nil].
   Qed.
 End Raw.
